@@ -464,6 +464,26 @@ Proof.
   exists ts, v. split; congruence.
 Qed.
 
+Theorem decode_encode_without_block_key : forall r ks ts iv d p s,
+  bk ks = None ->
+  ser O d = Some p -> deser O p = Some d -> parse_int_ok ts = true ->
+  encode O r ks ts iv d = Ok s -> decode O r ks s = Ok d.
+Proof.
+  intros r ks ts iv d p s B S D T E.
+  apply (decode_encode r ks ts iv d p s S D); [rewrite B; exact I | exact T | exact E].
+Qed.
+
+Theorem role_separation_swap_either : forall ks s s' d d',
+  decode O Private ks s = Ok d -> decode O Public ks s' = Ok d' ->
+  reverse_id s = Some s' \/ reverse_id s' = Some s ->
+  exists ts v,
+    hmac O (hk ks) (mac_msg (role_name Private) ts v) = hmac O (hk ks) (mac_msg (role_name Public) ts v) /\
+    mac_msg (role_name Private) ts v <> mac_msg (role_name Public) ts v.
+Proof.
+  intros ks s s' d d' H H' [R|R];
+    [exact (role_separation_swap ks s s' d d' H H' R) | exact (role_separation_swap' ks s s' d d' H H' R)].
+Qed.
+
 End Codec.
 
 (* ---- cache keys -------------------------------------------------------------------------------------- *)
@@ -735,3 +755,142 @@ Proof.
 Qed.
 
 End Hub.
+
+(* ======================================================================================= *)
+(*  Concrete oracle instances: witnesses of the refutations, non-vacuity of the hypotheses   *)
+(* ======================================================================================= *)
+Definition nbytes (l : list N) : bytes := map ascii_of_N l.
+
+(* (1) a real id: minted by the real codec (hash key "12345678901234567890123456789012", no
+   block key, SessionIdData{Sid: 1, BackendId: "b"}); the oracle tables hold the one HMAC-SHA256
+   value and the one protobuf serialization that occur.  The harness replays it (c15WitnessId). *)
+Definition wit_id : bytes := bs "MTc5MDc5MzA3MHxDQUVhQVdJPXyAP1N2Jrhx1GLVCx0g8Jtpu4aZDy_xsMj3O0pm8vfQTw==".
+Definition wit_msg : bytes := bs "private-session|1790793070|CAEaAWI=".
+Definition wit_mac : bytes :=
+  nbytes [128; 63; 83; 118; 38; 184; 113; 212; 98; 213; 11; 29; 32; 240; 155; 105; 187; 134; 153; 15; 47; 241;
+          176; 200; 247; 59; 74; 102; 242; 247; 208; 79]%N.
+Definition wit_ser : bytes := nbytes [8; 1; 26; 1; 98]%N.
+Definition wit_oracles : oracles N N N :=
+  {| hmac := fun _ m => if beqb m wit_msg then wit_mac else [];
+     ser := fun d => if N.eqb d 1 then Some wit_ser else None;
+     deser := fun p => if beqb p wit_ser then Some 1%N else None;
+     ctr := fun _ _ x => x;
+     sid_of := fun d => d |}.
+Definition wit_ks : keyset N N := {| hk := 0%N; bk := None |}.
+Definition wit_id_nl : bytes := wit_id ++ [LF].                       (* a line break appended *)
+Definition wit_id_bits : bytes := bs "MTc5MDc5MzA3MHxDQUVhQVdJPXyAP1N2Jrhx1GLVCx0g8Jtpu4aZDy_xsMj3O0pm8vfQTx==".  (* "w==" -> "x==" *)
+
+Lemma wit_lax_accepts_three_spellings :
+  decode_private_lax wit_oracles wit_ks wit_id = Ok 1%N /\
+  decode_private_lax wit_oracles wit_ks wit_id_nl = Ok 1%N /\
+  decode_private_lax wit_oracles wit_ks wit_id_bits = Ok 1%N /\
+  wit_id_nl <> wit_id /\ wit_id_bits <> wit_id.
+Proof.
+  split; [vm_compute; reflexivity|]. split; [vm_compute; reflexivity|]. split; [vm_compute; reflexivity|].
+  split; intro H; vm_compute in H; discriminate H.
+Qed.
+
+Lemma wit_repaired_accepts_one :
+  decode wit_oracles Private wit_ks wit_id = Ok 1%N /\
+  decode wit_oracles Private wit_ks wit_id_nl = Err ENotCanonical /\
+  decode wit_oracles Private wit_ks wit_id_bits = Err ENotCanonical.
+Proof. split; [vm_compute; reflexivity|]. split; vm_compute; reflexivity. Qed.
+
+Lemma wit_encode : encode wit_oracles Private wit_ks (bs "1790793070") [] 1%N = Ok wit_id.
+Proof. vm_compute. reflexivity. Qed.
+
+(* (2) toy oracles (a keyed, length-preserving, involutive "cipher"; an identity "serializer";
+   an "HMAC" that depends on key and message) for the statements that need a block key *)
+Definition toy_xor (k : N) (x : bytes) : bytes := map (fun c => ascii_of_N (N.lxor (N_of_ascii c) k)) x.
+Definition toy_oracles : oracles N N bytes :=
+  {| hmac := fun k m => ascii_of_N k :: firstn 4 (rev m);
+     ser := fun d => Some d;
+     deser := fun p => Some p;
+     ctr := fun k _ x => toy_xor k x;
+     sid_of := fun d => N.of_nat (List.length d) |}.
+Definition toy_iv : bytes := bs "0123456789abcdef".
+Definition toy_ks1 : keyset N N := {| hk := 7%N; bk := Some 1%N |}.
+Definition toy_ks2 : keyset N N := {| hk := 7%N; bk := Some 2%N |}.      (* same hash key, other block key *)
+Definition toy_ks3 : keyset N N := {| hk := 8%N; bk := Some 1%N |}.
+
+Lemma toy_empty_value_lost : forall r,
+  exists s, encode toy_oracles r toy_ks1 (bs "17") toy_iv [] = Ok s /\ decode toy_oracles r toy_ks1 s = Err EDecrypt.
+Proof. intros []; eexists; (split; [vm_compute; reflexivity|]); vm_compute; reflexivity. Qed.
+
+Lemma toy_block_key_not_authenticated :
+  exists s d', encode toy_oracles Private toy_ks1 (bs "17") toy_iv (bs "data") = Ok s /\
+               decode toy_oracles Private toy_ks2 s = Ok d' /\ d' <> bs "data" /\ hk toy_ks1 = hk toy_ks2 /\ bk toy_ks1 <> bk toy_ks2.
+Proof.
+  eexists. eexists. split; [vm_compute; reflexivity|]. split; [vm_compute; reflexivity|].
+  split; [intro H; vm_compute in H; discriminate H|]. split; [reflexivity | discriminate].
+Qed.
+
+Lemma toy_stream_ok : stream_ok toy_oracles (bk toy_ks1) toy_iv (bs "data").
+Proof.
+  split; [reflexivity|]. split; [intro H; vm_compute in H; discriminate H | vm_compute; reflexivity].
+Qed.
+
+Lemma toy_roundtrip_hyps : forall r,
+  ser toy_oracles (bs "data") = Some (bs "data") /\ deser toy_oracles (bs "data") = Some (bs "data") /\
+  stream_ok toy_oracles (bk toy_ks1) toy_iv (bs "data") /\ parse_int_ok (bs "17") = true /\
+  exists s, encode toy_oracles r toy_ks1 (bs "17") toy_iv (bs "data") = Ok s.
+Proof.
+  intro r. split; [reflexivity|]. split; [reflexivity|]. split; [exact toy_stream_ok|]. split; [reflexivity|].
+  destruct r; eexists; vm_compute; reflexivity.
+Qed.
+
+(* two different accepted ids of one role under one key set (hypotheses of [modification]) *)
+Lemma toy_two_ids : forall r,
+  exists s s', decode toy_oracles r toy_ks1 s = Ok (bs "data") /\ decode toy_oracles r toy_ks1 s' = Ok (bs "data") /\ s' <> s.
+Proof.
+  intro r.
+  destruct (toy_roundtrip_hyps r) as (S & D & C & T & s & E).
+  assert (T' : parse_int_ok (bs "18") = true) by reflexivity.
+  assert (E' : exists s', encode toy_oracles r toy_ks1 (bs "18") toy_iv (bs "data") = Ok s') by (destruct r; eexists; vm_compute; reflexivity).
+  destruct E' as [s' E']. exists s, s'.
+  split; [exact (decode_encode _ _ _ _ _ _ _ _ S D C T E)|]. split; [exact (decode_encode _ _ _ _ _ _ _ _ S D C T' E')|].
+  intro X. subst s'. destruct r; vm_compute in E, E'; rewrite <- E in E'; discriminate E'.
+Qed.
+
+(* an "HMAC" that ignores its arguments: the hypotheses of the separation theorems can be met,
+   and then the equations they conclude are indeed collisions of that function *)
+Definition const_oracles : oracles N N bytes :=
+  {| hmac := fun _ _ => bs "mac"; ser := fun d => Some d; deser := fun p => Some p; ctr := fun k _ x => toy_xor k x;
+     sid_of := fun d => N.of_nat (List.length d) |}.
+Definition const_ks (h : N) : keyset N N := {| hk := h; bk := None |}.
+Lemma const_cross_role_and_key :
+  exists s s', decode const_oracles Private (const_ks 1) s = Ok (bs "d") /\
+               reverse_id s = Some s' /\ decode const_oracles Public (const_ks 1) s' = Ok (bs "d") /\
+               decode const_oracles Private (const_ks 2) s = Ok (bs "d").
+Proof.
+  exists (b64enc (join3 (bs "17") (b64enc (bs "d")) (bs "mac"))). eexists.
+  split; [vm_compute; reflexivity|]. split; [vm_compute; reflexivity|]. split; [vm_compute; reflexivity|]. vm_compute; reflexivity.
+Qed.
+
+Lemma wit_lax_refuted :
+  exists s s' s'', s' <> s /\ s'' <> s /\
+    decode_private_lax wit_oracles wit_ks s = Ok 1%N /\
+    decode_private_lax wit_oracles wit_ks s' = Ok 1%N /\
+    decode_private_lax wit_oracles wit_ks s'' = Ok 1%N.
+Proof.
+  exists wit_id, wit_id_nl, wit_id_bits. pose proof wit_lax_accepts_three_spellings as H. tauto.
+Qed.
+
+Lemma empty_value_refuted :
+  (forall (key bkey data : Type) (O : oracles key bkey data) r ks k ts iv d s,
+     bk ks = Some k -> ser O d = Some [] -> List.length iv = iv_size -> ctr O k iv [] = [] -> parse_int_ok ts = true ->
+     encode O r ks ts iv d = Ok s -> decode O r ks s = Err EDecrypt) /\
+  (forall r, exists s, encode toy_oracles r toy_ks1 (bs "17") toy_iv [] = Ok s /\ decode toy_oracles r toy_ks1 s = Err EDecrypt).
+Proof. split; [exact @empty_plaintext_lost | exact toy_empty_value_lost]. Qed.
+
+Lemma blockkey_refuted :
+  (forall (key bkey data : Type) (O : oracles key bkey data) r ks1 ks2 s d1, hk ks1 = hk ks2 -> decode O r ks1 s = Ok d1 ->
+     exists ts v m, s = id_string r ts v m /\ forall d2, payload O ks2 v = Some d2 -> decode O r ks2 s = Ok d2) /\
+  (exists s d', encode toy_oracles Private toy_ks1 (bs "17") toy_iv (bs "data") = Ok s /\
+                decode toy_oracles Private toy_ks2 s = Ok d' /\ d' <> bs "data" /\
+                hk toy_ks1 = hk toy_ks2 /\ bk toy_ks1 <> bk toy_ks2).
+Proof. split; [exact @shared_hash_key | exact toy_block_key_not_authenticated]. Qed.
+
+Lemma real_id_roundtrip : encode wit_oracles Private wit_ks (bs "1790793070") [] 1%N = Ok wit_id /\
+                          decode wit_oracles Private wit_ks wit_id = Ok 1%N.
+Proof. split; [exact wit_encode | exact (proj1 wit_repaired_accepts_one)]. Qed.
